@@ -21,6 +21,7 @@ const (
 var (
 	ErrBadChecksum     = errors.New("invalid input checksum")
 	ErrMissingChecksum = errors.New("input string is smaller than the checksum size")
+	ErrInvalidAddress  = errors.New("input does not encode a full-length address")
 )
 
 // Address represents the 33 byte address of a HyperSDK account
@@ -73,6 +74,9 @@ func (a *Address) UnmarshalText(input []byte) error {
 	decoded, err := fromChecksum(string(input))
 	if err != nil {
 		return err
+	}
+	if len(decoded) != AddressLen {
+		return fmt.Errorf("%w: decoded %d bytes, expected %d", ErrInvalidAddress, len(decoded), AddressLen)
 	}
 
 	copy(a[:], decoded)
